@@ -16,13 +16,13 @@ import (
 
 // Op is one harness operation on a provider / scope.
 type Op struct {
-	Kind   string `json:"k"`             // scope | get | group | close | cancel | settle | build
-	Scope  string `json:"s,omitempty"`   // "" = provider, otherwise the Bind name of a scope
-	Bind   string `json:"bind,omitempty"` // scope: name given to the created scope
-	T      string `json:"t,omitempty"`
-	Key    string `json:"key,omitempty"`
-	Group  string `json:"g,omitempty"`
-	Ctx    string `json:"ctx,omitempty"` // scope: "" = Background, "nil" = nil, "cancel" = cancellable context owned by the harness
+	Kind  string `json:"k"`              // scope | get | group | close | cancel | settle | build
+	Scope string `json:"s,omitempty"`    // "" = provider, otherwise the Bind name of a scope
+	Bind  string `json:"bind,omitempty"` // scope: name given to the created scope
+	T     string `json:"t,omitempty"`
+	Key   string `json:"key,omitempty"`
+	Group string `json:"g,omitempty"`
+	Ctx   string `json:"ctx,omitempty"` // scope: "" = Background, "nil" = nil, "cancel" = cancellable context owned by the harness
 }
 
 func (o Op) String() string {
@@ -67,25 +67,25 @@ type Res struct {
 }
 
 type scopeRec struct {
-	Name     string
-	Parent   string // "" = provider
-	S        godi.Scope
-	Cancel   context.CancelFunc
+	Name      string
+	Parent    string // "" = provider
+	S         godi.Scope
+	Cancel    context.CancelFunc
 	CallerCtx context.Context
 	CreatedBy *Res
 }
 
 // Env is the state of one execution of a scenario.
 type Env struct {
-	W        *kit.World
-	Coll     godi.Collection
-	Prov     godi.Provider
-	BuildErr error
-	AddErrs  []error
-	Scopes   map[string]*scopeRec
-	Results  []*Res
-	curScope map[int]string // thread -> scope name the running op resolves in ("" provider/root, "#build")
-	CallScope map[*kit.Call]string
+	W          *kit.World
+	Coll       godi.Collection
+	Prov       godi.Provider
+	BuildErr   error
+	AddErrs    []error
+	Scopes     map[string]*scopeRec
+	Results    []*Res
+	curScope   map[int]string // thread -> scope name the running op resolves in ("" provider/root, "#build")
+	CallScope  map[*kit.Call]string
 	BuildPanic any
 }
 
